@@ -4161,3 +4161,32 @@ func (f *FuncCFG) flagSetPoints(field, val string) []Point {
 	}
 	return out
 }
+
+// notFreshlyAllocated: every value e can have at pt (Origins, through spliced helpers) is an
+// allocation made on this path - &T{...}, new(T), or a constructor of the package whose body is
+// `return &T{...}`. Returns "" if so, otherwise a description of the first other origin (a field, a
+// slice element, a pool: an object that existed before and may still be referred to).
+func notFreshlyAllocated(f *FuncCFG, info *types.Info, e ast.Expr, pt Point) string {
+	os := f.Origins(e, pt)
+	if len(os) == 0 {
+		return "the origin of " + exprKey(e) + " is unknown"
+	}
+	for _, o := range os {
+		x := ast.Unparen(o.E)
+		if u, ok := x.(*ast.UnaryExpr); ok && u.Op == token.AND {
+			if _, isLit := ast.Unparen(u.X).(*ast.CompositeLit); isLit {
+				continue
+			}
+		}
+		if c, ok := x.(*ast.CallExpr); ok {
+			if id, isId := ast.Unparen(c.Fun).(*ast.Ident); isId && id.Name == "new" && info.Uses[id] == types.Universe.Lookup("new") {
+				continue
+			}
+			if lit, _, _ := constructorLiteral(f.P, info, c); lit != nil {
+				continue
+			}
+		}
+		return exprKey(e) + " can be " + exprKey(o.E) + " (" + f.PosOf(o.At) + "), an object that existed before this call"
+	}
+	return ""
+}
